@@ -1,11 +1,176 @@
-(* C06 — Context resolution (theorems are added by proofs/ContextProofs.v; placeholder with the
-   table facts for now) *)
+(* C06 — Context resolution: each directive lands under the nearest admitting parent.
+   Model: model/Core.v (process_context, close_explicit, has_unclosed_explicit, close_all), validated
+   against core/context_processing.go + core/scan_project.go by ./check C06.
+   Specification: spec/ContextSpec.v (resolve_all = the fold of the model's functions over items;
+   open_chain / walk / spec_parent = the independent declarative reading of the property).
+   Proofs: proofs/ContextProofs.v.  All statements are for ALL item lists (no length bound). *)
 From Coq Require Import List NArith Bool.
 From JV.gen Require Import DirectiveTables.
 From JV.model Require Import Core.
+From JV.spec Require Import ContextSpec.
+From JV.proofs Require Import ContextProofs.
 Import ListNotations.
 
 (* the admissibility tables REGENERATED from directive/enumeration.go are what the model walks *)
 Theorem root_kinds_are_admitted_nowhere_needed : forall k, root_allowed k = kind_in k root_allowed_list.
 Proof. exact (fun k => eq_refl). Qed.
 Print Assumptions root_kinds_are_admitted_nowhere_needed.
+
+(* ---- fuel is sufficient ---- *)
+Theorem process_context_fuel_sufficient : forall d fr rt, process_context (ctx_fuel fr) d fr rt <> CFuel.
+Proof. exact process_context_never_out_of_fuel. Qed.
+Print Assumptions process_context_fuel_sufficient.
+
+Theorem close_explicit_fuel_sufficient : forall fr rt,
+  close_explicit (S (List.length fr)) fr rt = None <-> has_unclosed_explicit fr = false.
+Proof. exact close_explicit_none_iff. Qed.
+Print Assumptions close_explicit_fuel_sufficient.
+
+Theorem resolve_never_panics_or_runs_out : forall l,
+  (exists st, resolve l = COk st) \/ (exists e, resolve l = CErr e).
+Proof. exact resolve_total. Qed.
+Print Assumptions resolve_never_panics_or_runs_out.
+
+(* ---- nothing lost, duplicated or reordered ---- *)
+Theorem resolve_preorder : forall l f, resolve_all l = COk f -> flatten f = dirs l.
+Proof. exact ContextProofs.resolve_preorder. Qed.
+Print Assumptions resolve_preorder.
+
+(* ---- every edge is admitted by the table, every top-level tree may stand at top level ---- *)
+Theorem resolve_admissible : forall l f,
+  resolve_all l = COk f ->
+  Forall (fun t => root_allowed (d_kind (tree_dir t)) = true /\ edges_ok t = true) f.
+Proof. exact ContextProofs.resolve_admissible. Qed.
+Print Assumptions resolve_admissible.
+
+Theorem resolve_admissible_edges : forall l f t p q,
+  resolve_all l = COk f -> In t f -> tree_edge t p q -> ctx_allowed (d_kind p) (d_kind q) = true.
+Proof. exact ContextProofs.resolve_admissible_edges. Qed.
+Print Assumptions resolve_admissible_edges.
+
+Theorem resolve_admissible_roots : forall l f t,
+  resolve_all l = COk f -> In t f ->
+  root_allowed (d_kind (tree_dir t)) = true \/ path_method (tree_dir t) = true.
+Proof. exact ContextProofs.resolve_admissible_roots. Qed.
+Print Assumptions resolve_admissible_roots.
+
+(* ---- the parent is the one the declarative specification names ---- *)
+Theorem resolve_nearest : forall l f,
+  resolve_all l = COk f -> forall k, parent_index f k = spec_parent l k.
+Proof. exact ContextProofs.resolve_nearest. Qed.
+Print Assumptions resolve_nearest.
+
+(* the zipper invariant: frames = the spec's open chain (same directives, innermost first; the
+   number the spec gives to a frame's directive is its pre-order position) *)
+Theorem frames_are_open_chain : forall l,
+  match open_chain l with
+  | Some c => exists fr rt, resolve l = COk (fr, rt) /\ chain_matches c fr rt /\ map snd c = map fst fr /\
+                 zsize fr rt = List.length (dirs l)
+  | None => exists e, resolve l = CErr e
+  end.
+Proof. exact ContextProofs.frames_are_open_chain. Qed.
+Print Assumptions frames_are_open_chain.
+
+(* what the specification's walk means: FIRST admitting item; everything walked over neither
+   admits nor is parenthesised *)
+Theorem walk_meaning : forall d c,
+  match walk d c with
+  | VUnder c' =>
+    exists left i p rest, c = left ++ c' /\ Forall (skippable d) left /\ c' = (i, p) :: rest /\
+      admits p d = true /\ hoists p d = false
+  | VTop => Forall (skippable d) c /\ root_allowed (d_kind d) = true
+  | VHoist =>
+    exists left i p rest, c = left ++ (i, p) :: rest /\ Forall (skippable d) left /\
+      admits p d = true /\ hoists p d = true /\ chain_has_explicit c = false
+  | VRejected false =>
+    (Forall (skippable d) c /\ root_allowed (d_kind d) = false) \/
+    exists left i p rest, c = left ++ (i, p) :: rest /\ Forall (skippable d) left /\
+      admits p d = false /\ d_explicit p = true
+  | VRejected true =>
+    exists left i p rest, c = left ++ (i, p) :: rest /\ Forall (skippable d) left /\
+      admits p d = true /\ hoists p d = true /\ chain_has_explicit ((i, p) :: rest) = true
+  end.
+Proof. exact walk_char. Qed.
+Print Assumptions walk_meaning.
+
+Theorem open_chain_numbers_are_positions : forall l c,
+  open_chain l = Some c -> forall i p, In (i, p) c -> nth_error (dirs l) i = Some p.
+Proof. exact open_chain_entries. Qed.
+Print Assumptions open_chain_numbers_are_positions.
+
+(* resolve_nearest with the specification unfolded *)
+Theorem resolve_nearest_spelled : forall l f k pre d,
+  resolve_all l = COk f -> nth_dir l k = Some (pre, d) ->
+  nth_error (flatten f) k = Some d /\
+  exists c, open_chain pre = Some c /\
+    match parent_index f k with
+    | Some (Some i) =>
+      exists left p rest, c = left ++ (i, p) :: rest /\ nth_error (flatten f) i = Some p /\
+        Forall (skippable d) left /\ admits p d = true /\ hoists p d = false
+    | Some None =>
+      (Forall (skippable d) c /\ root_allowed (d_kind d) = true) \/
+      (exists left i p rest, c = left ++ (i, p) :: rest /\ Forall (skippable d) left /\
+         admits p d = true /\ hoists p d = true /\ chain_has_explicit c = false)
+    | None => False
+    end.
+Proof. exact ContextProofs.resolve_nearest_spelled. Qed.
+Print Assumptions resolve_nearest_spelled.
+
+(* ---- rejection: exactly when, and with which error ---- *)
+Theorem resolve_outcome : forall l,
+  (exists f c, resolve_all l = COk f /\ open_chain l = Some c /\ chain_has_explicit c = false) \/
+  (exists d, no_place l d false /\ resolve_all l = CErr (kw_err d CEIncorrectContext)) \/
+  (exists d, no_place l d true /\ resolve_all l = CErr (kw_err d CEIncorrectContextPath)) \/
+  (close_without_open l /\ resolve_all l = CErr (ctx_err CENoExplicitToClose)) \/
+  (open_at_end l /\ resolve_all l = CErr (ctx_err CENotAllClosed)).
+Proof. exact ContextProofs.resolve_outcome. Qed.
+Print Assumptions resolve_outcome.
+
+Theorem resolve_rejects_iff : forall l,
+  (exists e, resolve_all l = CErr e) <->
+  (exists d path, no_place l d path) \/ close_without_open l \/ open_at_end l.
+Proof. exact ContextProofs.resolve_rejects_iff. Qed.
+Print Assumptions resolve_rejects_iff.
+
+Theorem resolve_error_kinds : forall l,
+  ((exists d, no_place l d false) <-> (exists e, resolve_all l = CErr e /\ ce_kind e = CEIncorrectContext)) /\
+  ((exists d, no_place l d true) <-> (exists e, resolve_all l = CErr e /\ ce_kind e = CEIncorrectContextPath)) /\
+  (close_without_open l <-> (exists e, resolve_all l = CErr e /\ ce_kind e = CENoExplicitToClose)) /\
+  (open_at_end l <-> (exists e, resolve_all l = CErr e /\ ce_kind e = CENotAllClosed)).
+Proof. exact ContextProofs.resolve_error_kinds. Qed.
+Print Assumptions resolve_error_kinds.
+
+Theorem no_place_is_spec_parent_none : forall l k pre d c,
+  nth_dir l k = Some (pre, d) -> open_chain pre = Some c ->
+  (spec_parent l k = None <-> exists path, walk d c = VRejected path).
+Proof. exact no_place_spec_parent. Qed.
+Print Assumptions no_place_is_spec_parent_none.
+
+(* ---- an open parenthesised context is never left ---- *)
+Theorem explicit_never_left : forall d fr rt fr' rt',
+  process_context (ctx_fuel fr) d fr rt = COk (fr', rt') ->
+  exists left kept,
+    map fst fr = left ++ kept /\ map fst fr' = d :: kept /\
+    Forall (fun x => d_explicit x = false) left /\
+    Forall (fun x => ctx_allowed (d_kind x) (d_kind d) = false \/ kept = []) left.
+Proof. exact ContextProofs.explicit_never_left. Qed.
+Print Assumptions explicit_never_left.
+
+Theorem explicit_stays_open : forall d fr rt fr' rt' x,
+  process_context (ctx_fuel fr) d fr rt = COk (fr', rt') ->
+  In x (map fst fr) -> d_explicit x = true -> In x (map fst fr').
+Proof. exact ContextProofs.explicit_stays_open. Qed.
+Print Assumptions explicit_stays_open.
+
+(* accepted documents have as many ')' as '(' *)
+Theorem accepted_balanced : forall l f, resolve_all l = COk f -> count_close l = count_open l.
+Proof. exact ContextProofs.accepted_balanced. Qed.
+Print Assumptions accepted_balanced.
+
+(* ---- the scan loop's flush_cur is one step of the resolver ---- *)
+Theorem flush_cur_is_resolve_step : forall s d,
+  cs_cur s = Some d ->
+  flush_cur s = resolve_step (cs_frames s, cs_roots s) (IDir d) >>=c fun r =>
+                COk (upd_cur (upd_ctx s (fst r) (snd r)) None).
+Proof. exact ContextProofs.flush_cur_is_resolve_step. Qed.
+Print Assumptions flush_cur_is_resolve_step.
